@@ -25,6 +25,7 @@ import traceback
 import numpy as np
 
 ROOT = os.path.dirname(os.path.dirname(os.path.abspath(__file__)))
+OUT = os.environ.get('VERIF_OUT') or ROOT     # evidence/ and replays/ go here (scratch runs against other trees set VERIF_OUT)
 FAILED = object()          # marker returned by Recorder.call when the implementation raised
 
 
@@ -480,7 +481,7 @@ def match_known(known, sig):
 
 
 def write_replay(pid, seed, tier, v):
-    d = os.path.join(ROOT, 'replays', pid)
+    d = os.path.join(OUT, 'replays', pid)
     os.makedirs(d, exist_ok=True)
     body = {'property': pid, 'seed': seed, 'tier': tier, 'unit': v.get('unit'), 'sig': v['sig'],
             'case': jsonable(v.get('case')), 'message': v['msg']}
@@ -490,8 +491,8 @@ def write_replay(pid, seed, tier, v):
         json.dump(body, f, indent=1)
     with open(os.path.join(d, name + '.py'), 'w') as f:
         f.write('"""Plain replay of one violating case, without the explorer.\n\n'
-                f'run:  cd /verif && /venv/bin/python replays/{pid}/{name}.py\n"""\n'
-                'import os, sys\nsys.path.insert(0, os.path.join(os.path.dirname(os.path.abspath(__file__)), "..", ".."))\n'
+                f'run:  cd /verif && PYTHONPATH=/repo:/verif /venv/bin/python {os.path.join(d, name)}.py\n"""\n'
+                f'import os, sys\nsys.path.insert(0, {ROOT!r})\n'
                 'from mc.run import replay\n'
                 f'sys.exit(replay({pid!r}, os.path.join(os.path.dirname(os.path.abspath(__file__)), {name + ".json"!r})))\n')
     return path
@@ -525,7 +526,7 @@ def write_evidence(pid, tier, seed, level, S, wall, assumptions, extra=None, kno
     ev = {'property_id': pid, 'tier': tier, 'seed': int(seed), 'level': level, 'coverage': cov,
           'assumptions': assumptions, 'wall_s': round(wall, 2), 'violations': int(S.nviol),
           'known_findings_seen': known_seen or []}
-    d = os.path.join(ROOT, 'evidence')
+    d = os.path.join(OUT, 'evidence')
     os.makedirs(d, exist_ok=True)
     path = os.path.join(d, f'{pid}.json')
     tmp = path + '.tmp'
